@@ -9,7 +9,7 @@ MapSets ==
   << << >>, << << KeyA, << >> >> >>, << << KeyA, ValX >> >>, << << KeyB, ValX >>, << KeyA, ValX >> >>,
      << << << 99, 97, 112, 115 >>, << 102, 82 >> >>, << << 114, 111, 117, 116, 101, 114, 46, 118, 101, 114, 115, 105, 111, 110 >>, << 48, 46, 57, 46, 54, 55 >> >> >>,
      << << Fill(255, 9), Fill(255, 4) >> >>, << << KeyA, << 61, 59 >> >>, << << 59, 61 >>, << 0, 255 >> >> >>,
-     << << KeyB, ValX >>, << KeyA, << >> >>, << << 99 >>, << >> >> >>, << << << 122 >>, << >> >>, << KeyA, ValX >> >>, << << << 97, 98 >>, << >> >> >>, CollisionPairs >>
+     << << KeyB, ValX >>, << KeyA, << >> >>, << << 99 >>, << >> >> >>, << << << 122 >>, << >> >>, << KeyA, ValX >> >>, << << << 97, 98 >>, << >> >> >>, CollisionPairs, PrefixPairs >>
 SB(fn, st, m, siglen, prefix, k) == [ops |-> << [op |-> "SignBuild", fn |-> fn, st |-> st, m |-> m, siglen |-> siglen, prefix |-> prefix, stream |-> k] >>]
 T4 == << 101, 36, 248, 0 >>
 Secs == << << >>, << 101, 36, 248, 0 >>, << 255, 255, 255, 255 >>, << 2, 37, 169, 53, 159 >>, << 3, 0, 0, 0, 0 >> >>
